@@ -57,6 +57,12 @@ def restartR (reload : Block α → Except (Block α) (Block α)) (s : Sess α) 
   | .error (done, b, rest) => .error { engine := { e1 with blocks := done ++ b :: rest }, outs := s.outs }
   | .ok bs => .ok { engine := { e1 with blocks := bs }, outs := clearedOuts s.engine }
 
+/-- `Engine.copy` (`copy.deepcopy(self)`, nothing else: no restart, no reloading – the copy holds the same input values,
+    output values and previous values, and its rules are loaded on the copied variables by the deep copy itself): the
+    copy is an equal session.  Values are immutable here, so the copy and the original cannot influence each other;
+    that the Python objects share nothing is observed by the correspondence run -/
+def copy (s : Sess α) : Sess α := s
+
 def values (s : Sess α) : List (X α) := s.outs.map (fun o => Op.lastOr .nan o.value)
 
 /-- `OutputVariable.defuzzify` of one output for the raw value of this step (`none`: disabled, nothing to do) -/
